@@ -31,6 +31,7 @@ TECHNIQUE = "Hypothesis differential testing between libpass hashers, passlib ha
 #: thorough tier: seed-dependent tasks are repeated under this many derived seeds (run.py); the listed task functions enumerate fixed domains
 THOROUGH_REPS = 4
 DETERMINISTIC_FNS = ()
+RULE += " Through the libpass context, hashes of scheme[0]'s format at another cost or made by passlib are not flagged."
 
 PAIRS = {
     "sha256": ("SHA256Hasher", "sha256_crypt"),
